@@ -148,10 +148,10 @@ set_option maxHeartbeats 1000000 in
     registry afterwards - provided that, when an object is created, the keys its `__init__` registers are not held by a live object
     (the side condition of `C01.wf_call`; without it the code lets the new object take the key over, the model keeps the old one) -/
 theorem call_eq (s : Py.SingletonCls κ) (r : Reg κ) (h : Rep s r) (canon : Option κ) (name : String) (fresh : Nat)
-    (initKeys : List κ) (auto : Bool)
-    (hnew : (∃ id, (r.callFull canon name fresh initKeys auto).2 = .ret id true) → ∀ k ∈ initKeys, r.findCanon k = none) :
+    (initKeys : List κ) (auto : Bool) :
     ((py_Singleton_call canon name fresh initKeys).exec s).1 = toPy (r.callFull canon name fresh initKeys auto).2 ∧
-    Rep ((py_Singleton_call canon name fresh initKeys).exec s).2 (r.callFull canon name fresh initKeys auto).1 := by
+    (((∃ id, (r.callFull canon name fresh initKeys auto).2 = .ret id true) → ∀ k ∈ initKeys, r.findCanon k = none) →
+      Rep ((py_Singleton_call canon name fresh initKeys).exec s).2 (r.callFull canon name fresh initKeys auto).1) := by
   unfold py_Singleton_call
   simp only [exec_ite, exec_bind, exec_get, exec_pure, exec_throw, exec_lift, exec_modify, exec_construct]
   simp only [Py.dictHas, Py.dictHasO, Py.dictGetOpt, Py.dictGetOptO, Py.dictGet, Py.dictGetO, Py.unwrap, Py.keyOf, Py.attrOf]
@@ -162,19 +162,20 @@ theorem call_eq (s : Py.SingletonCls κ) (r : Reg κ) (h : Rep s r) (canon : Opt
       h.names name]
     <;> first
       | (cases hn : r.findName name <;>
-          simp [toPy, pure, Except.pure, throw, throwThe, MonadExceptOf.throw] <;> exact h)
-      | (simp [toPy]; exact h)
+          simp [toPy, pure, Except.pure, throw, throwThe, MonadExceptOf.throw] <;> (first | exact h | exact fun _ => h | (intros; exact h) | exact ⟨rfl, fun _ => h⟩))
+      | (simp [toPy]; (first | exact h | exact fun _ => h | (intros; exact h) | exact ⟨rfl, fun _ => h⟩))
   | some k =>
     cases hne : name.isEmpty <;> cases hn : r.findName name <;> cases hc : r.findCanon k
     case false.none.none =>
       have hcall : r.callFull (some k) name fresh initKeys auto =
           (r.register ⟨fresh, name, k, if initKeys.contains k then initKeys else initKeys ++ [k]⟩ auto, .ret fresh true) := by
         simp [Reg.callFull, hne, hn, hc]
-      have hfree := hnew ⟨fresh, by rw [hcall]⟩
       rw [hcall]
       simp only [hne, Bool.not_false, Option.isSome_some, Bool.and_self, if_true, h.names name, h.canon k, hn, hc, Option.map_none,
         Option.isSome_none, Bool.or_self, Bool.false_eq_true, if_false, Option.isNone_none, pure, Except.pure]
-      refine ⟨rfl, ?_, ?_⟩
+      refine ⟨rfl, fun hnew => ?_⟩
+      have hfree := hnew ⟨fresh, rfl⟩
+      refine ⟨?_, ?_⟩
       · intro n
         show List.lookup n (Py.dictSet s._instanceNames name fresh) = _
         rw [lookup_dictSet, findName_register, h.names n]
@@ -204,6 +205,6 @@ theorem call_eq (s : Py.SingletonCls κ) (r : Reg κ) (h : Rep s r) (canon : Opt
       simp only [hne, hn, hc, Bool.not_false, Bool.not_true, Option.isSome_some, Option.isSome_none, Bool.and_true, Bool.and_self,
         Bool.and_false, Bool.false_eq_true, if_false, if_true, h.names name, h.canon k]
       simp [toPy, pure, Except.pure, throw, throwThe, MonadExceptOf.throw]
-      try (first | exact h | (split <;> simp_all [toPy] <;> exact h))
+      try (first | (first | exact h | exact fun _ => h | (intros; exact h) | exact ⟨rfl, fun _ => h⟩) | (split <;> simp_all [toPy] <;> (first | exact h | exact fun _ => h | (intros; exact h) | exact ⟨rfl, fun _ => h⟩)))
 
 end Dsd.PySingletonL
